@@ -178,6 +178,19 @@ let handle kind a =
         else
           gzi_write_index (if a.(2) = "_" then [] else List.map parse_pair (split_on ',' a.(2))) s0 in
       Some (fmt_sink (fmt_res r) s)
+  | "ixf" ->
+      (* ixf script records (wave 10): fai write_index as the chain of write_all calls the model
+         derives from the records (NV.Sinks.FaiCalls; bytes = C17's w_fai); record =
+         name:len:pos:lb:lw, name in hex ('.' = empty), `_` = no records *)
+      let s0 = { sbytes = []; sscript = parse_script a.(0); scalls = O } in
+      let recs = if a.(1) = "_" then [] else
+        List.map (fun r -> match split_on ':' r with
+          | [n; l; p; b; w] ->
+              { f_name = (if n = "." then [] else bytes_of_hex n); f_len = n_of_dec l; f_pos = n_of_dec p;
+                f_lb = n_of_dec b; f_lw = n_of_dec w }
+          | _ -> failwith "fai rec") (split_on ',' a.(1)) in
+      let (r, s) = fai_write_index recs s0 in
+      Some (fmt_sink (fmt_res r) s)
   | "ixb" ->
       (* ixb fmt ending script frames <index text>: csi / tabix write_index, then try_finish (T) or
          finish (X), then Drop; the model derives the calls on the BGZF writer from the index *)
